@@ -33,6 +33,10 @@ def gen_network(rng, kind):
     atoms = rng.sample(["H", "C", "O", "N", "He", "Si", "D", "S", "Mg"], rng.randint(2, 5))
     if "H" not in atoms:
         atoms[0] = "H"
+    if kind == "hfirst":
+        # hydrogen is the element with index 0 (elements follow the species order: least connected first, ties by name - no atom
+        # that sorts before H)
+        atoms = ["H"] + rng.sample(["O", "N", "He", "Si", "S", "Mg"], rng.randint(1, 3))
     pool = [s for s in netgen.gas_pool() + netgen.ice_pool("#") if s.comp and all(e in atoms for e, _ in s.comp)
             and not s.name.startswith(("o", "p"))]
     rng.shuffle(pool)
@@ -276,6 +280,8 @@ def run(argv):
     kinds = ["plain"] * 5 + ["grain", "nonatomic", "noelement", "plain"]
     for n in range(nnets):
         kind = kinds[n % len(kinds)] if n >= 3 else ["grain", "nonatomic", "noelement"][n]   # the finding witnesses always first
+        if n in (4, 6):
+            kind = "hfirst"
         species = gen_network(rng, kind)
         staged = kind == "plain" and (n == 3 or rng.random() < 0.3)
         try:
@@ -297,6 +303,8 @@ def run(argv):
                 chk.violation({"kind": "render-raised", "net": kind}, f"rendering raised {e}", input=show)
                 break
             rd = Rendered(path, b)
+            if any(n_ == "IDX_ELEM_H" and int(v_) == 0 for n_, v_ in rd.idx_lines):
+                chk.hist["hydrogen-is-element-0"] += 1
             chk.count((n, b), nontrivial=len(species) >= 4)
             try:
                 mat, fac = parse_renorm(path, b)
@@ -344,7 +352,7 @@ def run(argv):
                 pend.append((show, rd, elems, mpoly, fpoly, [f"IDX_{s.alias}" for s in sp]))
         if n < 3:
             chk.sample(show)
-        if kind == "plain" and len(compiled_jobs) < (4 if tier == "quick" else 12):
+        if kind in ("plain", "hfirst") and len(compiled_jobs) < (4 if tier == "quick" else 12):
             for b in ("dense", "rosenbrock4"):
                 if (chk.scratch / f"n{n}-{b}" / "src").exists():
                     compiled_jobs.append((n, b, chk.scratch / f"n{n}-{b}", truth, show))
@@ -454,7 +462,7 @@ def oracle(chk, rng, rd, elems, mpoly, fpoly, truth, show, kind, backend, ftext=
                 chk.violation({"kind": "electron-changed", "net": kind}, "electron abundance changed by the renormalisation", input=show)
                 return False
         # identity when the ratios already match (only when every element of every species is atomic)
-        if kind == "plain":
+        if kind in ("plain", "hfirst"):
             cur = {e: total(e[len("IDX_ELEM_"):], y) / H for e in elems}
             r1 = solve_exact(A, [cur[e] for e in elems])
             if r1 is not None:
